@@ -321,6 +321,36 @@ def run(tier, seed, replay=None):
         if not alive:
             rep.fail("C04: a proxy process died during the scenarios (splice=%s)" % splice, {"kind": "failing-input", "io": [splice, bufsz], "scenarios": []})
         outcomes[(splice, bufsz)] = {(h["scenario"], h["kind"], h["conn"]): (h.get("client_ok"), h.get("how")) for h in hs if "error" not in h}
+    # ---- the open direction keeps flowing for as long as its sender likes, also past the idle period ---------------
+    # (idle period 2 s; one side finishes at once, the other sends a byte every 0.5 s for 4.5 s; both orders, both I/O modes)
+    import halfclose_cases as hc
+    import e2e
+    n_long = 0
+    for splice in (True, False):
+        lp = e2e.free_port()
+        px = e2e.Proxy(driver, [{"name": "http", "bind": "%s:%d" % (e2e.LOOP, lp)}], [{"name": "direct"}], [{"target": "direct"}], timeouts={"idle": 2, "udp": 2},
+                       io={"useSplice": splice, "bufferSize": 65536}, metrics=False, name="c04-long-%s" % ("s" if splice else "b"))
+        o_after, o_first = e2e.Server(hc.stream_after_eof_origin(9, 0.5)), e2e.Server(hc.halfclose_first_origin)
+        try:
+            px.start()
+            with concurrent.futures.ThreadPoolExecutor(2) as ex:
+                f1 = ex.submit(hc.client_closes_first, lp, o_after, 9, 0.5)
+                f2 = ex.submit(hc.origin_closes_first, lp, o_first, 9, 0.5)
+                hl = [f1.result(), f2.result()]
+        finally:
+            px.stop()
+            o_after.close()
+            o_first.close()
+            import shutil
+            shutil.rmtree(px.dir, ignore_errors=True)
+        for h in hl:
+            n_long += 1
+            total += 1
+            dist[h["kind"]] += 1
+            bad = hc.judge(h)
+            if bad:
+                rep.fail("C04: idle period 2 s, splice=%s: %s - the opposite direction must keep flowing until its own sender finishes" % (splice, bad),
+                         {"kind": "failing-input", "io": [splice, 65536], "scenarios": [h]})
     # identical in both modes
     a, b = outcomes.get((True, 65536), {}), outcomes.get((False, 65536), {})
     for k in a:
@@ -329,7 +359,7 @@ def run(tier, seed, replay=None):
                      {"kind": "failing-input", "io": "both", "scenarios": [dict(scenario=k[0], kind=k[1], conn=k[2])]})
     rep.coverage.update({
         "evaluations": total, "distinct_nontrivial": len(shapes),
-        "rule": "scenarios client-closes-first (origin still streaming), origin-closes-first (client sends afterwards), both-at-once, client-aborts (RST), origin-aborts (RST) x client kinds %s x connectors %s x I/O configurations %s; history record of every tunnel" % (KINDS, rw.CONNECTORS, configs),
+        "rule": "scenarios client-closes-first (origin still streaming), origin-closes-first (client sends afterwards), both-at-once, client-aborts (RST), origin-aborts (RST) x client kinds %s x connectors %s x I/O configurations %s; history record of every tunnel; with an idle period of 2 s: one side finishes at once, the other sends for 4.5 s (both orders, both I/O modes)" % (KINDS, rw.CONNECTORS, configs),
         "input_distribution": dict(dist),
     })
     rep.assumptions = ["promptness is judged with a %.1fs threshold on a loaded machine" % PROMPT, "TLS client sides are exercised by C01 (Python cannot half-close TLS)"]
